@@ -165,12 +165,11 @@ func runDirect(c Case) *ev.Failure {
 func runConn(c Case) *ev.Failure {
 	msgs, all, _ := c.stream()
 	mc := memnet.NewConn()
-	got := make(chan []byte, len(msgs)+8)
+	// the handler keeps the messages; they are serialised only after the connection has ended
+	// (a message must not depend on what the transport delivers after it)
+	got := make(chan *diam.Message, len(msgs)+8)
 	mux := diam.NewServeMux()
-	mux.HandleFunc("ALL", func(_ diam.Conn, m *diam.Message) {
-		b, _ := m.Serialize()
-		got <- b
-	})
+	mux.HandleFunc("ALL", func(_ diam.Conn, m *diam.Message) { got <- m })
 	stop := make(chan struct{})
 	defer close(stop)
 	go func() {
@@ -193,7 +192,8 @@ func runConn(c Case) *ev.Failure {
 	}
 	close(got)
 	var recv [][]byte
-	for b := range got {
+	for m := range got {
+		b, _ := m.Serialize()
 		recv = append(recv, b)
 	}
 	if len(recv) != len(msgs) {
